@@ -138,14 +138,14 @@ CACHE_NOTE = ("Trusted: Lean kernel + propext/Classical.choice/Quot.sound; sha1 
               "Modelled, not verified: action.go (Cache), internal/cache, pkg/cache, pkg/cache/key.String - bound by exact comparison of every output of generated histories with the Lean file-cache model.")
 
 PROPS.update({
-    "C14": {"modules": ["Carapace.Props.C14"], "ops": [("cache", {"quick": 3000, "thorough": 150000})],
+    "C14": {"modules": ["Carapace.Props.C14"], "ops": [("cache", {"quick": 3000, "thorough": 150000}), ("rawcache", {"quick": 60, "thorough": 600})],
             "rule": "histories of 3-14 operations: invocations of a cached Action at one of three call sites with key tuples (0-2 keys of 1-2 strings; 10% with keys containing the separator characters; 15% with keys that change during the invocation), timeouts 10 s / 100 s / 1000 s / never, results with and without messages; clock advances by 3..1500 s; corruption of an entry (garbage, truncation, empty file, rarely a symlink loop); foreign files dropped into the cache directories; non-trivial = at least two invocations; distinct = distinct input digest",
             "assumptions": ["FileChecksum / FileStats / FolderStats keys are not exercised (key.String and ad-hoc key functions are)", "the exact instant age == timeout is not observable (real time passes between operations)"],
             "claimed": True, "engine": "cache",
             "level_text": ("`C14_refines`: for every history of invocations, elapsed times and corruptions, the outputs of the file-based cache model (hit iff a file exists, is not older than the timeout - never for a negative timeout - and parses; written under the key values after the invocation; not written when the result has messages) equal the outputs of an abstract store keyed by (call site, key tuple), by a simulation proof over the operation list - under `KeyEncodingInjective`, the hypothesis the proof forces; `C14_never_stale`; `C14_key_collision` decides that the encoding is not injective in general (listed finding). "
                            "Correspondence: every output (which real invocation's result is returned, whether a real invocation happened) of generated histories against the real library with a private cache directory; the abstract-store oracle is evaluated on the real outputs."),
             "level_note": CACHE_NOTE},
-    "C15": {"modules": ["Carapace.Props.C15"], "ops": [("crashwrite", {"quick": 120, "thorough": 4000})],
+    "C15": {"modules": ["Carapace.Props.C15"], "ops": [("crashwrite", {"quick": 120, "thorough": 4000}), ("rawcache", {"quick": 60, "thorough": 600})],
             "rule": "for an entry of 1-6 candidates (Action export JSON or raw bytes), with or without an expired complete previous entry of the same or a different shape and length, the real write path is run under RLIMIT_FSIZE = k for EVERY byte offset k from 0 to the entry length + 1 (the write fails part-way with EFBIG, exactly as on a full disk), then a reader goes through the real cache; non-trivial = every case (each enumerates ~150-250 offsets); distinct = distinct input digest",
             "assumptions": ["a kill between syscalls and a reader concurrent with the write leave the same intermediate file states as a write that fails after k bytes (in-place protocol: O_TRUNC, then the bytes in order); kernel-level atomicity of rename(2) is trusted where a rename protocol is used",
                             "`hprefix` (a proper prefix of an export document does not decode) is a property of encoding/json that is validated on the real code at every byte offset, not proved"],
